@@ -115,6 +115,23 @@ func runC20ChildDim(c *Ctx) {
 					notEmpty = notEmpty || !g.Truth
 				}
 			}
+			// a result that is only compared for equality selects members of a given
+			// dimension: an empty non-collection member of that dimension is harmless
+			// there (its type fixes its dimension); only "highest dimension so far"
+			// computations need the member to be non-empty as well
+			if v := call.Value(); v != nil && notGC && !notEmpty {
+				onlyEq := len(*v.Referrers()) > 0
+				for _, r := range *v.Referrers() {
+					bo, ok := r.(*ssa.BinOp)
+					if !ok || (bo.Op != token.EQL && bo.Op != token.NEQ) {
+						onlyEq = false
+					}
+				}
+				if onlyEq {
+					c.OK(call.Pos(), fn, "Dimension() of a direct collection member", "guarded by !IsGeometryCollection() and used only to select members of one dimension")
+					return
+				}
+			}
 			c.Check(notGC && notEmpty, call.Pos(), fn, "Dimension() of a direct collection member", "guarded by !IsEmpty() and !IsGeometryCollection()", "Dimension() is applied to a direct member of a GeometryCollection that may itself be a collection or empty: a nested collection reports the dimension of its EMPTY members, so 'the highest non-empty dimension' is over-estimated and the operation works on the wrong (empty) part")
 		})
 	}
@@ -239,15 +256,30 @@ func runC14Lockstep(c *Ctx) {
 			if !ok {
 				return
 			}
-			sl, ok := st.Val.(*ssa.Slice)
-			if !ok || sl.Low == nil || sl.High != nil {
-				return
+			isAdvance := false
+			if sl, ok := st.Val.(*ssa.Slice); ok && sl.Low != nil && sl.High == nil {
+				// queue = queue[1:]
+				if k, ok := constInt(sl.Low); ok && k == 1 {
+					if ld, ok := sl.X.(*ssa.UnOp); ok && ld.X == ssa.Value(fv) {
+						isAdvance = true
+					}
+				}
 			}
-			if k, ok := constInt(sl.Low); !ok || k != 1 {
-				return
+			if bo, ok := st.Val.(*ssa.BinOp); ok && bo.Op == token.ADD {
+				// cursor++ where the cursor indexes a slice in this closure
+				if k, ok := constInt(bo.Y); ok && k == 1 {
+					if ld, ok := bo.X.(*ssa.UnOp); ok && ld.X == ssa.Value(fv) {
+						eachInstr(f, func(in2 ssa.Instruction) {
+							if ia, ok := in2.(*ssa.IndexAddr); ok {
+								if l2, ok := ia.Index.(*ssa.UnOp); ok && l2.X == ssa.Value(fv) {
+									isAdvance = true
+								}
+							}
+						})
+					}
+				}
 			}
-			ld, ok := sl.X.(*ssa.UnOp)
-			if !ok || ld.X != ssa.Value(fv) {
+			if !isAdvance {
 				return
 			}
 			n++
@@ -257,7 +289,7 @@ func runC14Lockstep(c *Ctx) {
 					bad = fmt.Sprintf("the return at %s can be reached without popping %s", c.P.Pos(r.Pos()), fv.Name())
 				}
 			}
-			c.Check(bad == "", st.Pos(), fn, "pop of captured queue "+fv.Name(), "executed on every path through the closure", bad+": the queue and the traversal get out of step and later elements receive the wrong entry")
+			c.Check(bad == "", st.Pos(), fn, "advance of the captured queue/cursor", "executed on every path through the closure", bad+": the queue and the traversal get out of step and later elements receive the wrong entry")
 		})
 	}
 	if n < 1 {
@@ -304,6 +336,52 @@ func runC16Map(c *Ctx) {
 						good = true
 					} else {
 						why = "the method is not applied to the member at the same index"
+					}
+				}
+			}
+			if ok && !good && staticCallee(call) == nil && !call.Call.IsInvoke() && len(call.Call.Args) == 1 {
+				// mapped[i] = fn(member_i) with fn a parameter: the obligation moves to
+				// the function literals passed for fn at every call site
+				if par, isPar := call.Call.Value.(*ssa.Parameter); isPar && (directChild(call.Call.Args[0]) || memberAtIndex(call.Call.Args[0], ia.Index)) {
+					pidx := paramIndex(f, par)
+					sites := c.P.callersOf(f)
+					allOK := len(sites) > 0 && pidx >= 0
+					for _, cs := range sites {
+						if pidx >= len(cs.Common().Args) {
+							allOK = false
+							continue
+						}
+						mc, isMC := cs.Common().Args[pidx].(*ssa.MakeClosure)
+						if !isMC {
+							allOK = false
+							continue
+						}
+						lit := mc.Fn.(*ssa.Function)
+						n++
+						litOK := len(lit.Params) == 1
+						for _, r := range returnsOf(lit) {
+							rv := r.Results[0]
+							if ex, ok := rv.(*ssa.Extract); ok {
+								rv = ex.Tuple
+							}
+							rc, isCall := rv.(*ssa.Call)
+							cal := (*ssa.Function)(nil)
+							if isCall {
+								cal = staticCallee(rc)
+							}
+							if cal == nil || cal.Signature.Recv() == nil || namedName(cal.Signature.Recv().Type()) != "Geometry" || len(rc.Call.Args) == 0 || stripLoad(rc.Call.Args[0]) != ssa.Value(lit.Params[0]) {
+								litOK = false
+							}
+						}
+						c.Check(litOK, lit.Pos(), FuncName(lit), "member mapping passed to "+f.Name(), "returns a Geometry-level method applied to the member it receives", "the mapping function does not return a Geometry-level method call on the member it is given: nested collections / some member types are skipped or copied unchanged")
+						if !litOK {
+							allOK = false
+						}
+					}
+					if allOK {
+						good = true
+					} else {
+						why = "the member is mapped through a function parameter, and not every call site passes a function literal that applies a Geometry-level method to the member"
 					}
 				}
 			}
